@@ -115,13 +115,17 @@ def rule_FP(run: Run) -> RuleResult:
             ser_ok = False
         res.add(f"{cons}:json-list-serialiser", ser_ok, f, fn.lineno, f"serialised value: {ser}", nec)
         # (d) returned bytes derive from the dump
-        rets = [n for n in astu.walk_no_nested(fn) if isinstance(n, ast.Return) and n.value is not None]
-        ret_ok = bool(rets)
-        for r in rets:
-            x = astu.expand_locals(r.value, amap)
-            if "dumps(" not in ast.unparse(x):
+        # (read off the returned terms of the interpreter's paths, so a private helper that does the dumping is seen through)
+        ret_ps = [p for p in fps_b if p.status == "ret"]
+        ret_ok = bool(ret_ps)
+        ret_why = "every return returns the json dump (possibly encoded)"
+        for p in ret_ps:
+            rk_ = p.ret.key() if p.ret is not None else "None"
+            core = rk_[len("call:encode("):] if rk_.startswith("call:encode(") else rk_
+            if not core.startswith(("call:json.dumps(", "call:dumps(")):
                 ret_ok = False
-        res.add(f"{cons}:returns-dump", ret_ok, f, fn.lineno, "every return returns the json dump (possibly encoded)", nec)
+                ret_why = f"a path returns {rk_[:80]}, not the json dump"
+        res.add(f"{cons}:returns-dump", ret_ok, f, fn.lineno, ret_why, nec)
         # (e) forbidden sources of nondeterminism
         bad = []
         for n in astu.walk_no_nested(fn):
